@@ -225,7 +225,7 @@ func init() {
 	register("c08", func(args []string) int {
 		f := parseFlags("c08", args)
 		rep := newReport("C08", f)
-		rep.Rule = "random histories with 1-3 injected fault directives (kind in {write error before effect, short write then error, sync, truncate, mmap, size}, the N-th next call of that kind, burst length 1-3), half of them placed right before a commit; after the faults a fault-free tail (two transactions that must commit, verify, reopen, verify). Oracle: no panic, no hang (20 s watchdog + lock state), a Commit fails only if an I/O call failed while its transaction was open, map/ownership oracles in process, a reopen shows the last committed state or completely the state of the failed attempt. Non-trivial: distinct (config, fault plan)."
+		rep.Rule = "fault-position sweep (a commit fails at its k-th page write, with and without partial effect, or at its first / second sync, after 1 or 2 prior commits, once or twice in a row; the next commit must succeed and survive a reopen); random histories with 1-3 injected fault directives (kind in {write error before effect, short write then error, sync, truncate, mmap, size}, the N-th next call of that kind, burst length 1-3), half of them placed right before a commit; after the faults a fault-free tail (two transactions that must commit, verify, reopen, verify). Oracle: no panic, no hang (20 s watchdog + lock state), a Commit fails only if an I/O call failed while its transaction was open, map/ownership oracles in process, a reopen shows the last committed state or completely the state of the failed attempt. Non-trivial: distinct (config, fault plan)."
 		if f.replay != "" {
 			rp, err := loadHistReplay(f.replay)
 			if err != nil {
@@ -257,6 +257,32 @@ func init() {
 					{Kind: "begin"}, {Kind: "alloc", N: 2}, {Kind: "setfull", P: 2, Seed: 6}, {Kind: "fault", P: 0, N: 0, Len: 1}, {Kind: "flush"}, {Kind: "drain"}, {Kind: end},
 					{Kind: "nofault"}, {Kind: "begin"}, {Kind: "alloc", N: 1}, {Kind: "setfull", P: 2, Seed: 7}, {Kind: "commit-must-succeed"}, {Kind: "verify"}},
 				103, "D16 failed flush of a transaction that ends in "+end)
+		}
+		// fault-position sweep: after 1 / 2 prior commits (both header slots) a commit fails at its k-th page write
+		// (error before effect / short write) or at its first / second sync; once or twice in a row; then, without a
+		// reopen in between, the next commit must succeed and be what the process and a reopened file show
+		for prior := 1; prior <= 2; prior++ {
+			for _, fk := range []struct{ kind, max int }{{0, 7}, {5, 7}, {1, 1}} {
+				for pos := 0; pos <= fk.max; pos++ {
+					for rep2 := 1; rep2 <= 2; rep2++ {
+						var ops []engine.Op
+						for k := 0; k < prior; k++ {
+							ops = append(ops, engine.Op{Kind: "begin"}, engine.Op{Kind: "alloc", N: 2}, engine.Op{Kind: "setfull", P: 2 * k, Seed: 60 + k}, engine.Op{Kind: "setfull", P: 2*k + 1, Seed: 70 + k}, engine.Op{Kind: "commit"})
+						}
+						for k := 0; k < rep2; k++ {
+							ops = append(ops, engine.Op{Kind: "begin", WALLimit: 2}, engine.Op{Kind: "alloc", N: 1}, engine.Op{Kind: "setfull", P: 0, Seed: 80 + k}, engine.Op{Kind: "setfull", P: 2, Seed: 90 + k},
+								engine.Op{Kind: "fault", P: fk.kind, N: pos, Len: 1}, engine.Op{Kind: "commit"}, engine.Op{Kind: "nofault"}, engine.Op{Kind: "rollback"})
+						}
+						ops = append(ops, engine.Op{Kind: "verify"},
+							engine.Op{Kind: "begin", WALLimit: 2}, engine.Op{Kind: "alloc", N: 1}, engine.Op{Kind: "setfull", P: 1, Seed: 99}, engine.Op{Kind: "commit-must-succeed"}, engine.Op{Kind: "verify"},
+							engine.Op{Kind: "reopen"}, engine.Op{Kind: "verify"},
+							engine.Op{Kind: "begin"}, engine.Op{Kind: "alloc", N: 1}, engine.Op{Kind: "setfull", P: 3, Seed: 98}, engine.Op{Kind: "commit-must-succeed"}, engine.Op{Kind: "verify"}, engine.Op{Kind: "reopen"}, engine.Op{Kind: "verify"})
+						cfg := engine.Config{PageSize: 1024, MaxSize: []uint64{0, 128 * 1024}[pos%2], InitMetaArea: uint32(4 * (prior % 2))}
+						c08Case(rep, cfg, ops, int64(1000+prior*100+fk.kind*10+pos), fmt.Sprintf("sweep prior=%d kind=%d pos=%d x%d", prior, fk.kind, pos, rep2))
+						rep.count("scenario:fault-position-sweep", 1)
+					}
+				}
+			}
 		}
 		for i := 0; i < n; i++ {
 			hseed := r.Int63()
